@@ -60,6 +60,24 @@ def run(payload):
                         fails.append({"id": "fill", "grid": repr(grid), "value": float(v)})
                 except Exception as e:
                     fails.append({"id": "fill_error", "grid": repr(grid), "error": str(e)})
+            # interpolation with boundary conditions: a constant field with the matching Dirichlet value stays constant
+            # everywhere in the domain, also next to corners, whatever the ghost cells held before
+            if not any(grid.periodic) and type(grid).__name__ in ("CartesianGrid", "UnitGrid"):
+                cst = float(rng.uniform(1, 3))
+                fc_ = ScalarField(grid, cst)
+                fc_._data_full[...] = rng.uniform(-5, 5, fc_._data_full.shape)
+                fc_.data = cst
+                lo_ = np.array([b[0] for b in grid.axes_bounds]); hi_ = np.array([b[1] for b in grid.axes_bounds])
+                for frac in (0.02, 0.3, 0.98):
+                    pt_ = lo_ + frac * 0.5 * grid.discretization if frac < 0.5 else hi_ - (1 - frac) * 0.5 * grid.discretization
+                    cases += 1
+                    try:
+                        val = float(fc_.interpolate(pt_, bc={"value": cst}))
+                    except Exception as e:
+                        fails.append({"id": "interpolate_bc_error", "grid": repr(grid), "error": f"{type(e).__name__}: {e}"})
+                        continue
+                    if abs(val - cst) > 1e-9:
+                        fails.append({"id": "interpolate_with_bc_not_constant_near_corner", "grid": repr(grid), "point": pt_.tolist(), "value": val, "constant": cst})
             # insertion
             blo = np.array([b[0] for b in grid.axes_bounds])
             bhi = np.array([b[1] for b in grid.axes_bounds])
